@@ -617,6 +617,8 @@ def run_case(ctx, drv, conv, case):
     S.check_shared(ctx, case, 'C02')
   elif kind == 'layout':
     S.check_layout(ctx, case, 'C02')
+  elif kind == 'bound-apply':
+    S.check_bound_apply(ctx, case)
   elif kind == 'shape-only':
     pending = []
     shape_only(ctx, conv, case['prog'], case['style'], case['x'], pending, mj=case.get('mutable'))
@@ -650,6 +652,9 @@ def run(ctx):
     S.check_shared(ctx, S.shared_case(ctx.rng), 'C02')
   for _ in range(80 if not thorough else 800):
     S.check_layout(ctx, S.gen_layout(ctx.rng), 'C02', pending)
+  for _ in range(45 if not thorough else 500):
+    c = S.gen_bound_nested(ctx.rng)
+    S.check_bound_apply(ctx, {'kind': 'bound-apply', 'spec': c['spec'], 'leaves': c['leaves'], 'x': c['x']})
   lazy_stream(ctx, conv, pending, 40 if not thorough else 400)
   lazy_filter_stream(ctx, conv, pending, 70 if not thorough else 700)
   flush(ctx, drv, conv, pending)
@@ -659,10 +664,10 @@ def run(ctx):
     ctx.count('streams', 'width')
     program_suite(ctx, conv, prog, pending)
   flush(ctx, drv, conv, pending)
-  n = 620 if not thorough else 8000
+  n = 520 if not thorough else 8000
   done = 0
   while done < n:
-    if ctx.elapsed() > (70 if not thorough else 1000):
+    if ctx.elapsed() > (60 if not thorough else 1000):
       ctx.notes.append(f'time budget reached after {done} programs')
       break
     for _ in range(min(40, n - done)):
